@@ -912,13 +912,27 @@ class Flattener(object):
                 self._is_generator_call(s.value) and all(_pure(a) for a in s.value.args) and all(_pure(k.value) for k in s.value.keywords)
             # a generator expression evaluates only its outermost iterable when it is created: a plain name there is pure
             lazy_exp = isinstance(s, ast.Assign) and len(s.targets) == 1 and isinstance(s.targets[0], ast.Name) and \
-                isinstance(s.value, ast.GeneratorExp) and len(s.value.generators) == 1 and isinstance(s.value.generators[0].iter, ast.Name)
+                isinstance(s.value, ast.GeneratorExp) and len(s.value.generators) == 1 and (
+                    isinstance(s.value.generators[0].iter, ast.Name) or
+                    # ... any outermost iterable when the consumer is the very next statement (nothing runs in between)
+                    (i + 1 < len(out) and any(isinstance(n, ast.Name) and n.id == s.targets[0].id for n in ast.walk(out[i + 1]))))
             if lazy_call or lazy_exp:
                 tmp = s.targets[0].id
                 uses = [n for r_ in out[i + 1:] for n in ast.walk(r_) if isinstance(n, ast.Name) and n.id == tmp]
                 names = {n.id for n in ast.walk(s.value) if isinstance(n, ast.Name)}
                 for j in range(i + 1, len(out)):
                     f = out[j]
+                    # x = list(tmp)  with tmp a generator expression used nowhere else: the list comprehension itself
+                    if lazy_exp and isinstance(f, ast.Assign) and isinstance(f.value, ast.Call) and isinstance(f.value.func, ast.Name) and \
+                            f.value.func.id == 'list' and len(f.value.args) == 1 and isinstance(f.value.args[0], ast.Name) and \
+                            f.value.args[0].id == tmp and len(uses) == 1 and not f.value.keywords:
+                        between = out[i + 1:j]
+                        if not any(names & _stored_names(b) for b in between):
+                            ge = s.value
+                            f.value = ast.copy_location(ast.ListComp(elt=ge.elt, generators=ge.generators), f.value)
+                            del out[i]
+                            i -= 1
+                        break
                     if isinstance(f, ast.For) and isinstance(f.iter, ast.Name) and f.iter.id == tmp and len(uses) == 1:
                         between = out[i + 1:j]
                         if not any(names & _stored_names(b) for b in between):
@@ -1456,6 +1470,59 @@ class Flattener(object):
             changed = True
         return changed
 
+    def _desugar_islice(self, fn):
+        """v = list(islice(G, K))  (K a literal >= 2)  observed only through len(v) compared with literals below K, v[c] with
+        c < K and truth tests      ==>      v = list(G)
+        (those observations cannot tell the first K elements from all of them)"""
+        changed = False
+        for d in [n for n in ast.walk(fn) if isinstance(n, ast.Assign) and len(n.targets) == 1 and isinstance(n.targets[0], ast.Name)]:
+            v = d.value
+            if not (isinstance(v, ast.Call) and isinstance(v.func, ast.Name) and v.func.id in ('list', 'tuple') and len(v.args) == 1):
+                continue
+            inner = v.args[0]
+            if not (isinstance(inner, ast.Call) and ((isinstance(inner.func, ast.Name) and inner.func.id == 'islice') or
+                                                     (isinstance(inner.func, ast.Attribute) and inner.func.attr == 'islice')) and
+                    len(inner.args) == 2 and isinstance(inner.args[1], ast.Constant) and isinstance(inner.args[1].value, int) and inner.args[1].value >= 2):
+                continue
+            K = inner.args[1].value
+            name = d.targets[0].id
+            if len([n for n in ast.walk(fn) if isinstance(n, ast.Name) and n.id == name and isinstance(n.ctx, ast.Store)]) != 1:
+                continue
+            ok = True
+            for n in ast.walk(fn):
+                if isinstance(n, ast.Name) and n.id == name and isinstance(n.ctx, ast.Load):
+                    par = getattr(n, '_parent', None)
+                    # parents are not maintained on rewritten trees: find the parent by search
+                    par = None
+                    for q in ast.walk(fn):
+                        if any(c is n for c in ast.iter_child_nodes(q)):
+                            par = q
+                            break
+                    if isinstance(par, ast.Subscript) and par.value is n and isinstance(par.slice, ast.Constant) and \
+                            isinstance(par.slice.value, int) and 0 <= par.slice.value < K:
+                        continue
+                    if isinstance(par, ast.Call) and isinstance(par.func, ast.Name) and par.func.id == 'len' and len(par.args) == 1:
+                        gp = None
+                        for q in ast.walk(fn):
+                            if any(c is par for c in ast.iter_child_nodes(q)):
+                                gp = q
+                                break
+                        if isinstance(gp, ast.Compare) and len(gp.ops) == 1 and all(
+                                isinstance(c_, ast.Constant) and isinstance(c_.value, int) and c_.value < K for c_ in [gp.left] + gp.comparators if c_ is not par):
+                            continue
+                        ok = False
+                    elif isinstance(par, (ast.If, ast.While)) and par.test is n:
+                        continue
+                    elif isinstance(par, ast.UnaryOp) and isinstance(par.op, ast.Not):
+                        continue
+                    else:
+                        ok = False
+            if ok:
+                v.args[0] = inner.args[0]
+                self.desugared += 1
+                changed = True
+        return changed
+
     def _desugar_iterator_pulls(self, stmts, fn):
         """it = (e for t in SRC if c)   [or a private generator function]   consumed only by k successive `next(it, d_i)`:
               v1 = d1; ...; vk = dk; n = 0
@@ -1733,11 +1800,15 @@ class Flattener(object):
         if isinstance(s, ast.For) and isinstance(s.iter, (ast.Tuple, ast.List)) and 0 < len(s.iter.elts) <= 8 and not s.orelse and \
                 not _contains(s.body, (ast.Break, ast.Continue)):
             rows = None
-            if isinstance(s.target, ast.Name) and all(isinstance(e, ast.Constant) for e in s.iter.elts):
+
+            def lit(e):
+                return isinstance(e, ast.Constant) or (isinstance(e, ast.UnaryOp) and isinstance(e.op, (ast.USub, ast.UAdd)) and
+                                                       isinstance(e.operand, ast.Constant) and isinstance(e.operand.value, (int, float)))
+            if isinstance(s.target, ast.Name) and all(lit(e) for e in s.iter.elts):
                 rows = [{s.target.id: e} for e in s.iter.elts]
             elif isinstance(s.target, (ast.Tuple, ast.List)) and all(isinstance(t_, ast.Name) for t_ in s.target.elts) and \
                     all(isinstance(e, (ast.Tuple, ast.List)) and len(e.elts) == len(s.target.elts) and
-                        all(isinstance(c_, ast.Constant) for c_ in e.elts) for e in s.iter.elts):
+                        all(lit(c_) for c_ in e.elts) for e in s.iter.elts):
                 rows = [dict(zip([t_.id for t_ in s.target.elts], e.elts)) for e in s.iter.elts]
             if rows is not None and not (set(rows[0]) & _stored_names(ast.Module(body=s.body, type_ignores=[]))):
                 out = []
@@ -1884,6 +1955,7 @@ class Flattener(object):
         self.desugared = 0
         self._dropped = set()
         self._desugar_partials(node)
+        self._desugar_islice(node)
         node.body = self._desugar_iterator_pulls(node.body, node)
         node.body = self._desugar_dispatch(node.body, node)
         node.body = self.desugar(node.body)
@@ -1918,9 +1990,12 @@ class Flattener(object):
                 node.body = _fold_constant_tests(node.body) or [ast.Pass()]
             self._desugar_partials(node)
             self._desugar_lambda_calls(node)
+            self._desugar_islice(node)
             node.body = self._desugar_iterator_pulls(node.body, node)
             node.body = self._desugar_dispatch(node.body, node)
             node.body = self.desugar(node.body)
+            node.body = self._forward_generator_temps(node.body)
+            node.body = self.lower_comprehensions(node.body)
             node.body = self.rewrite_block(node.body, self.fi.cls, [self.fi.key])
             if ast.dump(node) == shape:
                 break
